@@ -125,11 +125,11 @@ func expect(name string, n, i, k uint64) (string, bool) {
 	case "trace_action_idx":
 		return fmt.Sprint(k), true
 	case "trace_action_from":
-		return pat(0x7f, i, k, 20), true
+		return pat(0x7f, trA(n, i), k, 20), true
 	case "trace_action_to":
-		return pat(0x7d, i, k, 20), true
+		return pat(0x7d, trA(n, i), k, 20), true
 	case "trace_action_value":
-		return fmt.Sprint(900 + 10*i + k), true
+		return fmt.Sprint(900 + 100*(n%50) + 10*i + k), true
 	}
 	return "", false
 }
@@ -162,12 +162,21 @@ func render(v any) string {
 // receipts, logs and traces)
 var nodeEmpty = map[uint64]bool{}
 
+// blocks with fewer transactions than the others
+var nodeTxs = map[uint64]uint64{}
+
 func txsOf(n uint64) uint64 {
 	if nodeEmpty[n] {
 		return 0
 	}
+	if v, ok := nodeTxs[n]; ok {
+		return v
+	}
 	return pTxs
 }
+
+// trace data differ from block to block as well
+func trA(n, i uint64) uint64 { return 16*(n%8) + i }
 
 // twoLogs: every transaction emits two logs, the first from token0 and the
 // second from token1 (log indexes 2i+1 and 2i+2)
@@ -237,7 +246,7 @@ func mkTraces(n uint64) []any {
 		for k := uint64(0); k < pTraces; k++ {
 			out = append(out, map[string]any{
 				"blockHash": pat(0xb0, n>>8, n, 32), "blockNumber": n, "transactionHash": pat(0xc0, n, i, 32), "transactionPosition": i,
-				"action": map[string]any{"from": pat(0x7f, i, k, 20), "callType": fmt.Sprintf("call%d", k), "to": pat(0x7d, i, k, 20), "value": hx(900 + 10*i + k)},
+				"action": map[string]any{"from": pat(0x7f, trA(n, i), k, 20), "callType": fmt.Sprintf("call%d", k), "to": pat(0x7d, trA(n, i), k, 20), "value": hx(900 + 100*(n%50) + 10*i + k)},
 			})
 		}
 	}
@@ -791,6 +800,25 @@ func TestVerifPlanBounded(t *testing.T) {
 				}
 			}
 			nodeEmpty = map[uint64]bool{}
+		}
+	}
+	// neighbouring blocks with different numbers of transactions in one batch
+	// (what is collected for one block must not leak into the next)
+	for _, pl := range plans {
+		for _, counts := range [][]uint64{{2, 1}, {1, 2}, {2, 1, 2}} {
+			for off, c := range counts {
+				nodeTxs[pStart+uint64(off)] = c
+			}
+			cases++
+			for round := 0; round < 3; round++ { // map iteration order varies from run to run
+				for _, msg := range runSetN(t, ts, pl.mode, pl.set, uint64(len(counts)), false) {
+					nfail++
+					if nfail <= 12 {
+						fmt.Printf("BOUNDED-FAIL batch with %v transactions per block: %s\n", counts, msg)
+					}
+				}
+			}
+			nodeTxs = map[uint64]uint64{}
 		}
 	}
 	fmt.Printf("BOUNDED cases=%d failures=%d exhaustive=true\n", cases, nfail)
